@@ -126,7 +126,9 @@ class Run:
                 rec['creating'] = False
                 if r[0] != 'ok':
                     self.workers.remove(rec)
-                    self.viol('create', f'ctor-{r[0]}:{kind}:{type(r[1]).__name__ if r[1] is not None else None}', lib.safe_repr(r[1]))
+                    import traceback
+                    tb = ''.join(traceback.format_tb(r[1].__traceback__)[-4:]) if r[0] == 'exc' else None
+                    self.viol('create', f'ctor-{r[0]}:{kind}:{type(r[1]).__name__ if r[1] is not None else None}', [lib.safe_repr(r[1]), tb])
                     continue
                 rec['w'] = r[1]
                 rec['ready'] = True
